@@ -233,12 +233,16 @@ def slow_reader_cases(P, seed, n=12):
                 if written >= total and rnd > 30:
                     break
             quiet, rnd = 0, 0
+            want_shut, shut = r.random() < 0.7, False
             while rnd < 8 or (quiet < 4 and rnd < 600):
                 rnd += 1
+                if want_shut and not shut:
+                    shut = do("net shutdown c1") == "ok"
                 do("net pump 200")
                 got = do("net read a1 65536").startswith("data:")
                 quiet = 0 if got else quiet + 1
                 do(f"net adv {r.choice([45000000, 300000000])}")
+            do("net read a1 65536")
             do("net adv 7")
             do("net tables")
             cases.append(ops)
@@ -432,6 +436,39 @@ def oracle_progress(P):
     return orc
 
 
+def oracle_completion(P):
+    """C03 with real tasks: a writer that was TOLD its shutdown succeeded has had every byte acknowledged by the
+    peer's stack, so a peer application that keeps reading gets all of them and then a clean end-of-stream - whatever
+    the network did before (judged at the end of the loss-free quiet-down phase, during which every open stream is
+    read until nothing arrives any more)."""
+    def orc(case, impl):
+        try:
+            end = case.index("net adv 7")
+        except ValueError:
+            return []
+        tr = NetTrace(case[:end], impl[:end])
+        hits = []
+        peer_by_tag = {c["tag"]: n for n, c in tr.calls.items()}
+        for name, c in tr.calls.items():
+            if c["closed"] or c.get("rerr") or not (c["res"] or "").startswith("ok:"):
+                continue
+            data = bytes(c["read"])
+            if not data:
+                continue
+            peer = peer_by_tag.get(tag_of_first_byte(data[0]))
+            if peer is None or not tr.calls[peer].get("shut"):
+                continue
+            c2 = tr.calls[peer]
+            if len(data) < c2["w"]:
+                hits.append({"sig": {"oracle": "net_completion", "what": "shutdown_ok_but_bytes_never_reach_the_reader"},
+                             "text": f"{peer} was told its shutdown succeeded after writing {c2['w']} bytes, but {name}, which kept reading over a loss-free network until nothing arrived any more, got only {len(data)}"})
+            elif len(data) == c2["w"] and not c["eof"]:
+                hits.append({"sig": {"oracle": "net_completion", "what": "no_end_of_stream_after_peer_shutdown"},
+                             "text": f"{peer}'s shutdown succeeded and {name} has read all {c2['w']} bytes, but its reads never return end-of-stream"})
+        return hits[:2]
+    return orc
+
+
 def oracle_limit_release(P):
     """C12 limit and C08 release with real tasks: never more table entries than the limit; once every stream is
     dropped and the timeouts have passed, the tables are empty and the wire stays silent."""
@@ -494,6 +531,11 @@ def register(P):
         P.PROPS[pid]["oracles"]["net_tables"] = oracle_limit_release(P)
         P.PROPS[pid]["trusted"] = P.PROPS[pid]["trusted"] + ["component `net` (several real sockets with real dispatcher and connection tasks over a scripted lossy network) has NO model: it is an implementation-side oracle run only (tagged per-stream payload integrity, pairing, limit, release); it supports the search for failing inputs and the validation of what the dispatcher model leaves out, it proves nothing"]
     P.ORACLE_COMPONENT["net_progress"] = "net"
+    P.ORACLE_COMPONENT["net_completion"] = "net"
+    P.PROPS["C03"]["components"].append("net")
+    P.PROPS["C03"]["oracles"]["net_completion"] = oracle_completion(P)
+    P.PROPS["C03"]["oracles"]["net_streams"] = oracle_streams(P)
+    P.PROPS["C03"]["trusted"] = P.PROPS["C03"].get("trusted", []) + ["component `net` (real sockets, dispatcher and connection tasks over a scripted network) has no model: oracle-only"]
     P.PROPS["C02"]["components"].append("net")
     P.PROPS["C02"]["oracles"]["net_progress"] = oracle_progress(P)
     P.PROPS["C02"]["trusted"] = P.PROPS["C02"].get("trusted", []) + ["component `net` (real sockets, dispatcher and connection tasks over a scripted network) has no model: oracle-only"]
